@@ -20,6 +20,7 @@ def showErr : Err → String
   | .conversion => "err:conversion"
   | .notImplemented => "err:notimpl"
   | .undefinedUnit => "err:undefinedunit"
+  | .floatDecimal => "err:floatdecimal"
   | .unmodelled => "err:unmodelled"
 
 def showRes : Except Err Bool → String
